@@ -525,6 +525,8 @@ pub fn run(ctx: &mut Ctx) {
     run_jobs(ctx, "tournament_laws_large", large_law_jobs(ctx.seed), trials);
     run_jobs(ctx, "tournament_laws_huge", huge_law_jobs(ctx.seed, ctx.tier == crate::Tier::Thorough), trials);
     constructor_check(ctx);
+    // coverage-guided search over the same strategies and oracles (thorough tier; see ptfuzz.rs)
+    crate::ptfuzz::thorough(ctx, &[("c07", 16, 1_000_000)]);
 }
 
 pub fn replay(ctx: &mut Ctx, sub: &str, case: &Value) {
